@@ -3,7 +3,7 @@
    Models: Fmt/Lex.v (literal lexer), Fmt/Format.v (integer / fraction /
    decimal printers, Brent cycle detection, termination test). *)
 From FendV Require Import Base.Prelude Fmt.Rat Fmt.Format Fmt.Lex Fmt.IntFmtProofs Fmt.LexProofs
-  Fmt.ExpansionProofs Fmt.RoundTripProofs Fmt.SepSwapProofs Fmt.BrentMinProofs.
+  Fmt.ExpansionProofs Fmt.RoundTripProofs Fmt.SepSwapProofs Fmt.BrentMinProofs Fmt.BrentFuelProofs.
 From Coq Require Import QArith.
 Open Scope N_scope.
 
@@ -83,6 +83,33 @@ Theorem C02_expansion_canonical : forall fuel base den x0 lam mu out,
     (N.to_nat mu <= m)%nat /\ exists k, l = (k * N.to_nat lam)%nat.
 Proof. exact brents_minimal. Qed.
 Print Assumptions C02_expansion_canonical.
+
+(* FUEL SUFFICIENCY.  On a remainder sequence that never reaches zero (what a
+   non-terminating expansion of a fraction in lowest terms gives, second
+   theorem) 3*den + 3 units of fuel are enough: Brent's algorithm returns, and
+   so does the recurring branch of format_trailing_digits (no panic either).
+   Together with C02_expansion_value / _canonical (any fuel on which the run
+   returns Ok) the fuel argument is thereby only a termination device. *)
+Theorem C02_brent_fuel : forall base den x0 fuel,
+  2 <= base_val base <= 36 -> x0 < den ->
+  (forall i, iter_rem (base_val base) den i x0 <> 0) ->
+  (3 * N.to_nat den + 3 <= fuel)%nat ->
+  exists lam mu out, brents_algorithm fuel base den x0 = Ok (lam, mu, out).
+Proof. exact brent_fuel_lemma. Qed.
+Print Assumptions C02_brent_fuel.
+
+Theorem C02_nonterminating_nonzero : forall b num den, 2 <= b -> den <> 0 -> N.gcd num den = 1 ->
+  (forall k, ~ (den | b ^ k)) -> forall i, iter_rem b den i (num mod den) <> 0.
+Proof. exact nonterminating_nonzero. Qed.
+Print Assumptions C02_nonterminating_nonzero.
+
+Theorem C02_recurring_total : forall fuel base num den sep neg ip ip_text,
+  2 <= base_val base <= 36 -> num < den ->
+  (forall i, iter_rem (base_val base) den i num <> 0) ->
+  (3 * N.to_nat den + 3 <= fuel)%nat ->
+  exists r, format_trailing_digits fuel base num den AllDigits (Ok false) sep neg ip ip_text = Ok r.
+Proof. exact ftd_recurring_total. Qed.
+Print Assumptions C02_recurring_total.
 
 (* improper and mixed fractions read back as the fraction *)
 Theorem C02_fmt_fraction_value : forall x base sep neg mixed s ex, base_prefix_ok base = true ->
